@@ -693,6 +693,63 @@ def _same_target_twice_failures():
     return fails, n
 
 
+def _cycle_shapes_failures():
+    """Bounded: dependency cycles on the real binaries.  Chains t0 -> t1 -> .. -> t(k-1) (k = 2, 3) below a top target, built
+    once without a cycle; then the last script is edited to ask for t0 (the cycle is closed) and a source is edited.  Every
+    member may call redo-stamp BEFORE it asks for its dependency (stamped subset: none / the first / all), so that on the
+    second build an ancestor can be 'checked in this run' while its own script still runs.  For every entry point (top, each
+    member) and -j1 / -j4: the command must END (20 s) with a NON-ZERO status.  -> (failures, n) or None"""
+    bindir = build_redo_bin()
+    if not bindir:
+        return None
+    env = {k: v for k, v in os.environ.items() if not k.startswith('REDO') and k != 'MAKEFLAGS'}
+    env['PATH'] = bindir + ':' + env.get('PATH', '')
+    work = tempfile.mkdtemp(prefix='redo-verif-cyc.', dir='/var/tmp')
+    fails, n = [], 0
+    try:
+        for k in (2, 3):
+            names = ['t%d' % i for i in range(k)]
+            for stamped in ('none', 'first', 'all'):
+                for entry in ['top'] + names:
+                    for j in (1, 4):
+                        n += 1
+                        proj = os.path.join(work, 'p%d' % n)
+                        os.makedirs(proj)
+
+                        def script(i, closed):
+                            st = stamped == 'all' or (stamped == 'first' and i == 0)
+                            dep = names[i + 1] if i + 1 < k else ('t0' if closed else None)
+                            lines = ['redo-ifchange src']
+                            if st:
+                                lines.append('echo constant | redo-stamp')
+                            if dep:
+                                lines.append('redo-ifchange ' + dep)
+                            lines.append('echo %s' % names[i])
+                            return '\n'.join(lines) + '\n'
+                        for i in range(k):
+                            open(os.path.join(proj, names[i] + '.do'), 'w').write(script(i, False))
+                        open(os.path.join(proj, 'top.do'), 'w').write('redo-ifchange side t0\necho top\n')
+                        open(os.path.join(proj, 'side.do'), 'w').write('echo side\n')
+                        open(os.path.join(proj, 'src'), 'w').write('one\n')
+                        r = subprocess.run(['redo', '--no-log', 'top'], cwd=proj, env=env, capture_output=True, text=True, timeout=60)
+                        if r.returncode != 0:
+                            continue
+                        open(os.path.join(proj, names[k - 1] + '.do'), 'w').write(script(k - 1, True))
+                        open(os.path.join(proj, 'src'), 'w').write('two, longer\n')
+                        hist = 'chain of %d, redo-stamp before the dependency in: %s; built once; %s.do now asks for t0; src edited; redo -j%d %s' % (k, stamped, names[k - 1], j, entry)
+                        try:
+                            r = subprocess.run(['redo', '--no-log', '-j%d' % j, entry], cwd=proj, env=env, capture_output=True, text=True, timeout=20)
+                            if r.returncode == 0:
+                                fails.append(dict(input=hist, observed='exit 0', clause='a build that runs into a dependency cycle ends with a non-zero status'))
+                        except subprocess.TimeoutExpired:
+                            subprocess.run(['pkill', '-f', proj], capture_output=True)
+                            fails.append(dict(input=hist, observed='still running after 20 s', clause='a build that runs into a dependency cycle ends'))
+                        shutil.rmtree(proj, ignore_errors=True)
+    finally:
+        shutil.rmtree(work, ignore_errors=True)
+    return fails, n
+
+
 def _corpus_failures(prop):
     """Bounded: the demonstration scripts of the seeded changes kept for this property (seeded/<id>/demo/demo.sh, listed in
     seeded/corpus.json with the clause each one checks).  Each is a concrete history with the real binaries that exits 0
@@ -855,6 +912,13 @@ def conformance(prop, unit_names, pins_changed, labels_props):
             out.append(dict(oid='sched/run_body/' + label, msg='clause fails on the real binaries for a concrete history (bounded probe same-target-twice, %d histories)' % r[1],
                             where=REPO + '/src/builder.rs:run', site=None, text=hits[0]['clause'], rendered=json.dumps(hits[:6], indent=1), inputs=[h['input'] for h in hits],
                             fn='run_body', label=label, props=[prop]))
+    if prop == 'C12' and ('gluebins' in unit_names or 'locks' in unit_names or 'dirty' in unit_names):
+        r = _cycle_shapes_failures()
+        if r and r[0]:
+            hits = r[0]
+            out.append(dict(oid='gluebins/ifchange_build/ifchange.every_argument_goes_through_the_builder', msg='clause fails on the real binaries for a concrete history (bounded probe cycle-shapes, %d histories)' % r[1],
+                            where=REPO + '/src/bin/redo/ifchange.rs:run', site=None, text=hits[0]['clause'], rendered=json.dumps(hits[:6], indent=1), inputs=[h['input'] for h in hits],
+                            fn='ifchange_build', label='ifchange.every_argument_goes_through_the_builder', props=['C12']))
     if 'dofiles' in unit_names and prop in ('C05', 'C13'):
         r = _shell_line_failures()
         by = {}
@@ -909,6 +973,8 @@ def bounded(prop, unit_names, labels_props):
         if prop == 'C08':
             extra.append(('cheatpipe', _cheatpipe_failures, 'tokens/setup_cheat_fds/setup.own_jobserver_owns_its_debts', lambda h: True))
             extra.append(('conserve', _conserve_failures, 'tokens/do_force_return_tokens/exit.one_token', lambda h: True))
+        if prop == 'C12':
+            extra.append(('cycle-shapes', _cycle_shapes_failures, 'gluebins/ifchange_build/ifchange.every_argument_goes_through_the_builder', lambda h: True))
         if prop in ('C09', 'C07', 'C15'):
             extra.append(('same-target-twice', _same_target_twice_failures, 'sched/run_body/run.first_pass_dedupes_by_id' if prop != 'C09' else 'sched/run_body/lock_new.registry_free', lambda h: (h['prop'] == 'C09') == (prop == 'C09')))
         if prop in ('C05', 'C13'):
